@@ -37,13 +37,19 @@ def mul_route(route, p, q):
             pi = np.rint(k).astype(np.int64)
             return np.asarray(ori.q_prod(pi, q.copy()), dtype=float) / np.linalg.norm(pi)
         return np.asarray(ori.q_prod(p.copy(), q.copy()), dtype=float)
+    if route == "rotate_by[int-list]":
+        a = np.abs(p[np.abs(p) > 1e-9])
+        k = p / np.min(a)
+        if np.max(np.abs(k - np.rint(k))) < 1e-12 and np.max(np.abs(k)) <= 64:
+            return np.asarray(QuaternionArray(np.array([q, q])).rotate_by([int(c) for c in np.rint(k)]), dtype=float)[0]
+        return np.asarray(QuaternionArray(np.array([q, q])).rotate_by(list(p)), dtype=float)[0]
     if route == "rotate_by":
         # QuaternionArray.rotate_by(p) returns p * row for every row
         return np.asarray(QuaternionArray(np.array([q, q])).rotate_by(p.copy()), dtype=float)[1]
     raise KeyError(route)
 
 
-MUL_ROUTES = ["product", "mul", "matmul", "q_prod", "q_prod[int-left]", "mult_L", "mult_R", "rotate_by"]
+MUL_ROUTES = ["product", "mul", "matmul", "q_prod", "q_prod[int-left]", "mult_L", "mult_R", "rotate_by", "rotate_by[int-list]"]
 
 
 def conj_route(route, q):
